@@ -59,6 +59,8 @@ SET_METHODS_RET_SET = {"copy", "union", "intersection", "difference", "symmetric
 ORDER_FREE_CALLS = {"sorted", "len", "any", "all", "sum", "min", "max", "bool", "set", "frozenset", "isinstance"}
 ORDER_CONSUMING_CALLS = {"list", "tuple", "enumerate", "iter", "str", "repr", "zip", "reversed", "map", "filter"}
 LOG_NAMES = {"debug", "info", "warning", "error", "exception", "critical", "log"}
+FS_LISTING_METHODS = {"glob", "rglob", "iterdir", "listdir", "scandir", "walk"}
+FS_LISTING_FUNCS = {"listdir", "scandir", "walk", "glob", "iglob"}
 CLOCK_CALLS = {("time", "time"), ("time", "time_ns"), ("time", "monotonic"), ("time", "perf_counter"), ("time", "strftime"),
                ("time", "localtime"), ("time", "gmtime"), ("time", "ctime"),
                ("datetime", "now"), ("datetime", "utcnow"), ("datetime", "today"), ("date", "today"),
@@ -117,7 +119,9 @@ class Site:
     file: str
     line: int
     func: str
-    kind: str       # for | comp | call:<name> | fstring | id_in_string | clock
+    kind: str       # for | comp | call:<name> | fstring | id_in_string | clock; "-fs" = over a file-system listing
+                    # (glob/rglob/iterdir/listdir/scandir/walk), "-derived" = over a container filled while iterating a
+                    # set / listing (its insertion order is inherited), incl. its .items()/.values()/.keys()
     text: str       # source text of the iterable / expression
     cls: str = ""   # sorted_wrapped | order_irrelevant | order_relevant | dead_value
     why: str = ""
@@ -157,6 +161,17 @@ REVIEWED: dict[tuple[str, str, str, str], tuple[str, str, str]] = {
         ("order_irrelevant", "", "total time and per-stage summary in progress messages only"),
     ("core/telemetry.py", "track_event", "clock", "time.time()"):
         ("order_irrelevant", "", "opt-in telemetry event record (printed to stdout when enabled); not part of any generated file"),
+    ("generator/client_generator.py", "_show_diffs", "for-fs", "Path(new_dir).rglob('*.py')"):
+        ("order_relevant", "show_diffs_fs",
+         "walks the newly generated tree in file-system order: decides has_diff (an OR) and prints per file; proved: the "
+         "decision and the set of files named do not depend on the listing order (only the order of the printed diffs does)"),
+    ("generator/client_generator.py", "_show_diffs", "for-fs", "Path(old_dir).rglob('*.py')"):
+        ("order_relevant", "show_diffs_fs", "second loop of the same function (files only in the existing output): same theorem"),
+    ("core/postprocess_manager.py", "type_check", "call", "target_dir.rglob('*.py')"):
+        ("order_irrelevant", "", "file arguments of the mypy command line (order does not change mypy's verdict); type_check "
+                                 "is not called by PostprocessManager.run (disabled) and writes no generated file"),
+    ("core/postprocess_manager.py", "type_check", "comp-derived", "python_files"):
+        ("order_irrelevant", "", "the same list turned into command-line strings; see the entry above"),
     ("emitters/models_emitter.py", "emit", "for", "set(all_schema_keys_to_emit) - processed_schema_original_keys"):
         ("order_irrelevant", "", "stall fallback: logs and adds every remaining key to a set; nothing is emitted here"),
 }
@@ -199,6 +214,10 @@ class Scanner(ast.NodeVisitor):
             return None
         if isinstance(e, (ast.Set, ast.SetComp)):
             return "S"
+        if isinstance(e, (ast.ListComp, ast.DictComp, ast.GeneratorExp)) and any(
+                self.shape(self.unwrap_iter(g.iter)[0]) in ("S", "F", "O") and "sorted" not in self.unwrap_iter(g.iter)[1]
+                for g in e.generators):
+            return "O"   # built by iterating a set / listing / derived container: inherits its order
         if isinstance(e, ast.Name):
             return self.lookup(e.id)
         if isinstance(e, ast.Attribute):
@@ -226,6 +245,17 @@ class Scanner(ast.NodeVisitor):
             return ("D", v) if v else None
         if isinstance(e, ast.Call):
             f = e.func
+            # file-system listings: the order of the entries is whatever the file system returns
+            if isinstance(f, ast.Attribute) and f.attr in FS_LISTING_METHODS:
+                return "F"
+            if isinstance(f, ast.Name) and f.id in FS_LISTING_FUNCS:
+                return "F"
+            # views of a container whose insertion order derives from a set / listing
+            if isinstance(f, ast.Attribute) and f.attr in ("items", "values", "keys") and self.shape(f.value) == "O":
+                return "O"
+            if isinstance(f, ast.Name) and f.id in ("list", "tuple", "dict", "enumerate", "reversed", "iter") and e.args \
+                    and self.shape(e.args[0]) in ("S", "F", "O") and f.id != "dict":
+                return "O" if self.shape(e.args[0]) != "S" or f.id in ("list", "tuple") else None
             if isinstance(f, ast.Name):
                 if f.id in ("set", "frozenset"):
                     return "S"
@@ -326,6 +356,23 @@ class Scanner(ast.NodeVisitor):
             s = self.iter_elem_shape(st.iter)
             if s:
                 self.bind(st.target, s)
+            inner, wrappers = self.unwrap_iter(st.iter)
+            if self.shape(inner) in ("S", "F", "O") and "sorted" not in wrappers:
+                # containers filled in this loop inherit the iteration order
+                for n in ast.walk(ast.Module(body=st.body, type_ignores=[])):
+                    tgt = None
+                    if isinstance(n, ast.Assign) and isinstance(n.targets[0], ast.Subscript):
+                        tgt = n.targets[0].value
+                    elif isinstance(n, ast.AugAssign) and isinstance(n.op, ast.Add):
+                        tgt = n.target
+                    elif isinstance(n, ast.Call) and isinstance(n.func, ast.Attribute) and n.func.attr in (
+                            "append", "extend", "insert", "setdefault", "appendleft"):
+                        tgt = n.func.value
+                    if tgt is not None and self.shape(tgt) not in ("S",):
+                        if isinstance(tgt, ast.Name):
+                            self.envs[-1][tgt.id] = "O"
+                        elif isinstance(tgt, ast.Attribute) and isinstance(tgt.value, ast.Name) and tgt.value.id == "self":
+                            self.gl.attrs[tgt.attr] = "O"
         elif isinstance(st, ast.comprehension):
             s = self.iter_elem_shape(st.iter)
             if s:
@@ -342,13 +389,16 @@ class Scanner(ast.NodeVisitor):
         self.generic_visit(node)
 
     # ----- sites
+    KIND = {"S": "for", "F": "for-fs", "O": "for-derived"}
+
     def visit_For(self, node: ast.For) -> None:
         inner, wrappers = self.unwrap_iter(node.iter)
-        if self.shape(inner) == "S":
+        sh = self.shape(inner)
+        if sh in ("S", "F", "O"):
             if "sorted" in wrappers:
-                self.add(node, "for", node.iter, "sorted_wrapped", "iterates sorted(<set>)")
+                self.add(node, self.KIND[sh], node.iter, "sorted_wrapped", "iterates sorted(<set / listing>)")
             else:
-                site = self.add(node, "for", node.iter)
+                site = self.add(node, self.KIND[sh], node.iter)
                 cls, why = self.classify_body(node.body + node.orelse, node)
                 site.cls, site.why = cls, why
         self.generic_visit(node)
@@ -359,11 +409,13 @@ class Scanner(ast.NodeVisitor):
         gens = node.generators  # type: ignore[attr-defined]
         for g in gens:
             inner, wrappers = self.unwrap_iter(g.iter)
-            if self.shape(inner) == "S":
+            sh = self.shape(inner)
+            if sh in ("S", "F", "O"):
+                ckind = {"S": "comp", "F": "comp-fs", "O": "comp-derived"}[sh]
                 if "sorted" in wrappers:
-                    self.add(node, "comp", g.iter, "sorted_wrapped", "iterates sorted(<set>)")
+                    self.add(node, ckind, g.iter, "sorted_wrapped", "iterates sorted(<set / listing>)")
                     continue
-                site = self.add(node, "comp", g.iter)
+                site = self.add(node, ckind, g.iter)
                 parent = self.parents.get(node)
                 if isinstance(node, ast.SetComp):
                     site.cls, site.why = "order_irrelevant", "set comprehension: result is a set"
@@ -378,7 +430,7 @@ class Scanner(ast.NodeVisitor):
     def visit_Call(self, node: ast.Call) -> None:
         f = node.func
         # order-consuming / order-free conversions of a set
-        if isinstance(f, ast.Name) and node.args and self.shape(node.args[0]) == "S":
+        if isinstance(f, ast.Name) and node.args and self.shape(node.args[0]) in ("S", "F", "O"):
             parent = self.parents.get(node)
             wrapped_in_iter = isinstance(parent, (ast.For, ast.comprehension)) and getattr(parent, "iter", None) is node
             if f.id in ORDER_FREE_CALLS:
@@ -395,7 +447,7 @@ class Scanner(ast.NodeVisitor):
                 else:
                     self.add(node, f"call:{f.id}", node.args[0])
         if isinstance(f, ast.Attribute):
-            if f.attr == "join" and node.args and self.shape(node.args[0]) == "S":
+            if f.attr == "join" and node.args and self.shape(node.args[0]) in ("S", "F", "O"):
                 self.add(node, "call:join", node.args[0])
             if f.attr == "pop" and not node.args and self.shape(f.value) == "S":
                 self.add(node, "call:pop", f.value)
@@ -631,7 +683,8 @@ def render() -> str:
     rel = [s for s in sites if s.cls == "order_relevant"]
     lines.append("")
     lines.append("(* the Gallina transcriptions (names in Model/Sites.v) of the order-relevant sites *)")
-    lines.append("Definition order_relevant_models : list (list N) := [" + "; ".join(cstr(s.model) for s in rel) + "].")
+    models = list(dict.fromkeys(s.model for s in rel))
+    lines.append("Definition order_relevant_models : list (list N) := [" + "; ".join(cstr(m) for m in models) + "].")
     lines.append(f"Definition n_sites : N := {len(sites)}.")
     lines.append(f"Definition n_files_scanned : N := {stats['files']}.")
     lines.append("")
